@@ -57,6 +57,7 @@ func classesOf(s Stats, p Program) []string {
 	add(s.ExpiredObserved > 0, "expired_observed")
 	add(s.CompactAfterExpiry > 0, "compaction_after_expiry")
 	add(s.HeldItems > 0, "held_get_item")
+	add(s.GCPauseOps > 0, "ops_inside_paused_gc_rewrite")
 	add(s.ManagedLowerWrite > 0, "managed_write_below_existing")
 	add(s.DiscardMoves > 0, "discardts_raised")
 	add(s.CommitsAfterReopen > 0, "commit_after_reopen")
@@ -328,6 +329,26 @@ func TestKF_Strict(t *testing.T) {
 
 var wGC = map[string]int{"churn": 8, "txn": 6, "begin": 4, "get": 4, "gethold": 3, "itemread": 3, "iter": 4, "iterdrain": 2, "del": 3, "set": 2, "commit": 3,
 	"flush": 3, "compact": 5, "gc": 6, "fill": 2, "reopen": 1, "clock": 1, "discardts": 1}
+
+func TestC15_GCRace(t *testing.T) {
+	runProp(t, propDef{id: "C15", part: "gc_race",
+		rule: "rapid-generated programs around the 'gcrace' macro: values above the threshold are written, half of them overwritten, flushed and compacted (discard statistics), then RunValueLogGC runs and its rewrite is PAUSED between the scan and the write-back phase (the production pause point) while generated operations execute: (a) the keys being moved are deleted, the memtable is flushed and the tombstones are compacted down, (b) a new reader opens an iterator / takes Get items and keeps them, (c) moved keys are overwritten and flushed; afterwards held iterators and items are read, L0 is compacted and a full sweep runs. Interleaved with ordinary transactions, flushes, compactions, re-opens. Oracle: reference model throughout (a key deleted during the rewrite stays deleted after the write-back and any later compaction; values of iterators opened during the rewrite stay readable after the file was removed). Non-trivial = operations ran inside >=1 paused rewrite.",
+		cfg: GenCfg{DB: dbx.GenCfg{AllowManaged: true, AllowEnc: true, KeepVersions: []int{1, 2, 0}}, MinOps: 4, MaxOps: 24, Hold: true, BigValues: true,
+			Weights: map[string]int{"gcrace": 8, "txn": 5, "flush": 2, "compact": 4, "begin": 2, "get": 2, "iter": 2, "reopen": 1, "discardts": 1, "deepen": 4, "fill": 2},
+			FixSpec: func(s *dbx.Spec) {
+				s.InMemory = false
+				s.ValueLogMaxEntries = 4
+				if s.MaxLevels > 4 { // small, deep trees: the base level is often not the last one
+					s.MaxLevels = 4
+				}
+				s.BaseLevelSize = 1 << 12
+				s.LevelSizeMultiplier = 2
+				s.BaseTableSize = 1 << 11
+				s.MemTableSize = 1 << 15
+			}},
+		nontrivial: func(s Stats, p Program) bool { return s.GCPauseOps > 0 },
+	})
+}
 
 func TestC15_ValueLogGC(t *testing.T) {
 	runProp(t, propDef{id: "C15", part: "gc",
